@@ -14,6 +14,8 @@ import (
 	"testing/synctest"
 	"time"
 
+	"gopkg.in/tomb.v2"
+
 	"github.com/snapcore/snapd/overlord"
 	"github.com/snapcore/snapd/overlord/restart"
 	"github.com/snapcore/snapd/overlord/snapstate"
@@ -120,6 +122,11 @@ func (s *verifEngC) resumeFrom(cp *verifCheckpoint, extraOps int) (*state.State,
 	se.AddManager(runner)
 	AddForeignTaskHandlers(runner, s.fakeBackend)
 	snapstate.SetSnapManagerBackend(mgr, s.fakeBackend)
+	runner.VerifWrapHandlers(func(kind, which string, h state.HandlerFunc) state.HandlerFunc {
+		return func(t *state.Task, tb *tomb.Tomb) error {
+			return verifGuardPanic(c, t.Kind(), which+" (after the restart)", func() error { return h(t, tb) })
+		}
+	})
 	st2.Lock()
 	snapstate.ReplaceStore(st2, s.fakeStore)
 	_, rerr := restart.Manager(st2, "boot-id-0", snapstatetest.MockRestartHandler(func(restart.RestartType) {}))
